@@ -307,6 +307,14 @@ def enumerate_steps(rs, inputs):
         mixed2 = OrderedDict([(a, {"t": "var", "name": fr[2]}), (b, real_value(rs, sb, inputs, "tensor"))])
         steps.append(("subs_mixed:var+real", {"op": "subs", "subs": mixed2}))
 
+    # --- one call that indexes a batch input AND substitutes a real value that has its own (caller-side) batch input of
+    # the same name: simultaneous semantics keep the value's input free (C04, C12)
+    for (n, sz) in ints[:2]:
+        for (r, shape) in reals[:2]:
+            for m in (sz, sz + 1):
+                val = {"t": "tensor_real", "data": enc(rs.randn(*((m,) + tuple(shape)))), "inputs": [[n, m]]}
+                steps.append(("subs_mixed:int+real_sharing_batch_name:%s,%s[%d]" % (n, r, m), {"op": "subs", "subs": OrderedDict([(n, {"t": "num_int", "v": int(rs.randint(sz))}), (r, val)])}))
+
     # --- align: every permutation of (up to 4) names, plus prefixes
     names = list(inputs)
     perms = list(itertools.permutations(names))
